@@ -100,12 +100,20 @@ class Version(object):
         return str(self)
 
     def __hash__(self):
-        return hash(self.tuple())
+        # Versions that compare equal have the same epoch and the same runs of
+        # digits (as numbers) in upstream and revision, up to trailing zeros.
+        return hash(
+            (
+                self.epoch,
+                get_significant_numbers(self.upstream),
+                get_significant_numbers(self.revision),
+            )
+        )
 
     def __eq__(self, other):
         if not isinstance(other, self.__class__):
             return NotImplemented
-        return self.tuple() == other.tuple()
+        return compare_version_objects(self, other) == 0
 
     def __ne__(self, other):
         return not self.__eq__(other)
@@ -350,6 +358,23 @@ def compare_version_objects(version1, version2):
     if version1.revision or version2.revision:
         return compare_strings(version1.revision, version2.revision)
     return 0
+
+
+def get_significant_numbers(string):
+    """
+    Return a tuple of the numbers found in ``string``, without the trailing zeros
+    that are not significant when comparing versions.
+
+    For example::
+    >>> get_significant_numbers("1.05~rc1.0")
+    (1, 5, 1)
+    >>> get_significant_numbers("0")
+    ()
+    """
+    numbers = [int(digits) for digits in re.findall(r"[0-9]+", string or "")]
+    while numbers and not numbers[-1]:
+        numbers.pop()
+    return tuple(numbers)
 
 
 def get_digit_prefix(characters):
